@@ -12,15 +12,497 @@ def KeysValid (kt vt : KT) (m : MMap) : Prop :=
 /-- membership of a pair, read through `get` -/
 def Has (kt vt : KT) (m : MMap) (k v : Bytes) : Prop := ∃ x, x ∈ get kt m k ∧ cmp vt v x = .eq
 
+/-! ### order facts derived from `CmpLaws` -/
+section Ord
+variable {t : KT} (hc : CmpLaws t)
+include hc
+
+theorem cl_gt_iff {a b : Bytes} (ha : valid t a = true) (hb : valid t b = true) :
+    cmp t a b = .gt ↔ cmp t b a = .lt := (hc.antisymm b a hb ha).symm
+
+theorem cl_lt_trans {a b c : Bytes} (ha : valid t a = true) (hb : valid t b = true)
+    (hcv : valid t c = true) (h1 : cmp t a b = .lt) (h2 : cmp t b c = .lt) : cmp t a c = .lt :=
+  hc.trans_lt a b c ha hb hcv (by simp [h1]) h2
+
+theorem cl_eq_lt {a b c : Bytes} (ha : valid t a = true) (hb : valid t b = true)
+    (hcv : valid t c = true) (h1 : cmp t a b = .eq) (h2 : cmp t b c = .lt) : cmp t a c = .lt :=
+  hc.trans_lt a b c ha hb hcv (by simp [h1]) h2
+
+theorem cl_lt_eq {a b c : Bytes} (ha : valid t a = true) (hb : valid t b = true)
+    (hcv : valid t c = true) (h1 : cmp t a b = .lt) (h2 : cmp t b c = .eq) : cmp t a c = .lt := by
+  have h2' := (hc.eq_symm b c hb hcv).1 h2
+  cases h : cmp t a c with
+  | lt => rfl
+  | eq =>
+    have h' := (hc.eq_symm a c ha hcv).1 h
+    have := hc.trans_lt c a b hcv ha hb (by simp [h']) h1
+    simp [this] at h2'
+  | gt =>
+    have h' := (cl_gt_iff hc ha hcv).1 h
+    have := hc.trans_lt c a b hcv ha hb (by simp [h']) h1
+    simp [this] at h2'
+
+theorem cl_eq_trans {a b c : Bytes} (ha : valid t a = true) (hb : valid t b = true)
+    (hcv : valid t c = true) (h1 : cmp t a b = .eq) (h2 : cmp t b c = .eq) : cmp t a c = .eq := by
+  have h1' := (hc.eq_symm a b ha hb).1 h1
+  cases h : cmp t a c with
+  | eq => rfl
+  | lt =>
+    have := hc.trans_lt b a c hb ha hcv (by simp [h1']) h
+    simp [this] at h2
+  | gt =>
+    exact absurd h (hc.trans a b c ha hb hcv (by simp [h1]) (by simp [h2]))
+
+
+end Ord
+
+/-! ### set level -/
+
+theorem setSorted_cons_cons (vt : KT) (a b : Bytes) (s : VSet) :
+    SetSorted vt (a :: b :: s) ↔ cmp vt a b = .lt ∧ SetSorted vt (b :: s) := by
+  simp [SetSorted]
+
+theorem setSorted_tail (vt : KT) (a : Bytes) (s : VSet) (h : SetSorted vt (a :: s)) :
+    SetSorted vt s := by
+  cases s with
+  | nil => trivial
+  | cons b s => exact ((setSorted_cons_cons vt a b s).1 h).2
+
+theorem setSorted_cons_iff (vt : KT) (hv : CmpLaws vt) (a : Bytes) (s : VSet)
+    (hval : ∀ x, x ∈ a :: s → valid vt x = true) :
+    SetSorted vt (a :: s) ↔ (∀ x, x ∈ s → cmp vt a x = .lt) ∧ SetSorted vt s := by
+  induction s generalizing a with
+  | nil => simp [SetSorted]
+  | cons b s ih =>
+    rw [setSorted_cons_cons]
+    have ihb := ih b (fun x hx => hval x (List.mem_cons_of_mem _ hx))
+    constructor
+    · rintro ⟨hab, hs⟩
+      refine ⟨?_, hs⟩
+      intro x hx
+      rcases List.mem_cons.1 hx with rfl | hx
+      · exact hab
+      · exact cl_lt_trans hv (hval a (by simp)) (hval b (by simp)) (hval x (by simp [hx])) hab
+          ((ihb.1 hs).1 x hx)
+    · rintro ⟨hall, hs⟩
+      exact ⟨hall b (by simp), hs⟩
+
+theorem setInsert_mem (vt : KT) (s : VSet) (v x : Bytes) (h : x ∈ (setInsert vt s v).1) :
+    x = v ∨ x ∈ s := by
+  induction s with
+  | nil => simp [setInsert] at h; exact Or.inl h
+  | cons a s ih =>
+    simp only [setInsert] at h
+    cases hc : cmp vt v a <;> simp only [hc] at h
+    · simpa using h
+    · exact Or.inr h
+    · rcases List.mem_cons.1 h with rfl | h
+      · simp
+      · rcases ih h with h | h
+        · exact Or.inl h
+        · exact Or.inr (List.mem_cons_of_mem _ h)
+
+theorem setInsert_ne_nil (vt : KT) (s : VSet) (v : Bytes) : (setInsert vt s v).1 ≠ [] := by
+  cases s with
+  | nil => simp [setInsert]
+  | cons a s => simp only [setInsert]; cases cmp vt v a <;> simp
+
+theorem setInsert_sorted (vt : KT) (hv : CmpLaws vt) (s : VSet) (v : Bytes)
+    (hs : SetSorted vt s) (hval : ∀ x, x ∈ s → valid vt x = true) (hvv : valid vt v = true) :
+    SetSorted vt (setInsert vt s v).1 := by
+  induction s with
+  | nil => simp [setInsert, SetSorted]
+  | cons a s ih =>
+    simp only [setInsert]
+    cases hc : cmp vt v a <;> simp only
+    · exact (setSorted_cons_cons vt v a s).2 ⟨hc, hs⟩
+    · exact hs
+    · have hval' : ∀ x, x ∈ s → valid vt x = true := fun x hx => hval x (List.mem_cons_of_mem _ hx)
+      have h1 := (setSorted_cons_iff vt hv a s hval).1 hs
+      have hva : ∀ x, x ∈ a :: (setInsert vt s v).1 → valid vt x = true := by
+        intro x hx
+        rcases List.mem_cons.1 hx with rfl | hx
+        · exact hval _ (by simp)
+        · rcases setInsert_mem vt s v x hx with rfl | hx
+          · exact hvv
+          · exact hval' x hx
+      refine (setSorted_cons_iff vt hv a _ hva).2 ⟨?_, ih h1.2 hval'⟩
+      intro x hx
+      rcases setInsert_mem vt s v x hx with rfl | hx
+      · exact (cl_gt_iff hv hvv (hval a (by simp))).1 hc
+      · exact h1.1 x hx
+
+theorem setInsert_flag_iff (vt : KT) (hv : CmpLaws vt) (s : VSet) (v : Bytes)
+    (hs : SetSorted vt s) (hval : ∀ x, x ∈ s → valid vt x = true) (hvv : valid vt v = true) :
+    (setInsert vt s v).2 = true ↔ ∃ x, x ∈ s ∧ cmp vt v x = .eq := by
+  induction s with
+  | nil => simp [setInsert]
+  | cons a s ih =>
+    have hval' : ∀ x, x ∈ s → valid vt x = true := fun x hx => hval x (List.mem_cons_of_mem _ hx)
+    have h1 := (setSorted_cons_iff vt hv a s hval).1 hs
+    simp only [setInsert]
+    cases hc : cmp vt v a <;> simp only
+    · simp only [Bool.false_eq_true, false_iff]
+      rintro ⟨x, hx, hvx⟩
+      rcases List.mem_cons.1 hx with rfl | hx
+      · simp [hc] at hvx
+      · have := cl_lt_trans hv hvv (hval a (by simp)) (hval' x hx) hc (h1.1 x hx)
+        simp [this] at hvx
+    · simp only [true_iff]
+      exact ⟨a, by simp, hc⟩
+    · rw [ih h1.2 hval']
+      constructor
+      · rintro ⟨x, hx, hvx⟩; exact ⟨x, List.mem_cons_of_mem _ hx, hvx⟩
+      · rintro ⟨x, hx, hvx⟩
+        rcases List.mem_cons.1 hx with rfl | hx
+        · simp [hc] at hvx
+        · exact ⟨x, hx, hvx⟩
+
+theorem setInsert_unchanged (vt : KT) (s : VSet) (v : Bytes) (h : (setInsert vt s v).2 = true) :
+    (setInsert vt s v).1 = s := by
+  induction s with
+  | nil => simp [setInsert] at h
+  | cons a s ih =>
+    simp only [setInsert] at h ⊢
+    cases hc : cmp vt v a <;> simp only [hc] at h ⊢
+    · simp at h
+    · rw [ih h]
+
+theorem setInsert_has (vt : KT) (hv : CmpLaws vt) (s : VSet) (v : Bytes) (hvv : valid vt v = true) :
+    ∃ x, x ∈ (setInsert vt s v).1 ∧ cmp vt v x = .eq := by
+  induction s with
+  | nil => exact ⟨v, by simp [setInsert], hv.refl v hvv⟩
+  | cons a s ih =>
+    simp only [setInsert]
+    cases hc : cmp vt v a <;> simp only
+    · exact ⟨v, by simp, hv.refl v hvv⟩
+    · exact ⟨a, by simp, hc⟩
+    · obtain ⟨x, hx, hvx⟩ := ih
+      exact ⟨x, List.mem_cons_of_mem _ hx, hvx⟩
+
+theorem setInsert_length (vt : KT) (s : VSet) (v : Bytes) :
+    (setInsert vt s v).1.length = s.length + (if (setInsert vt s v).2 then 0 else 1) := by
+  induction s with
+  | nil => simp [setInsert]
+  | cons a s ih =>
+    cases hc : cmp vt v a <;> simp only [setInsert, hc]
+    · simp
+    · simp
+    · simp only [List.length_cons, ih]; omega
+
+theorem setRemove_mem (vt : KT) (s : VSet) (v x : Bytes) (h : x ∈ (setRemove vt s v).1) :
+    x ∈ s := by
+  induction s with
+  | nil => simp [setRemove] at h
+  | cons a s ih =>
+    simp only [setRemove] at h
+    cases hc : cmp vt v a <;> simp only [hc] at h
+    · exact h
+    · exact List.mem_cons_of_mem _ h
+    · rcases List.mem_cons.1 h with rfl | h
+      · simp
+      · exact List.mem_cons_of_mem _ (ih h)
+
+theorem setRemove_sorted (vt : KT) (hv : CmpLaws vt) (s : VSet) (v : Bytes)
+    (hs : SetSorted vt s) (hval : ∀ x, x ∈ s → valid vt x = true) :
+    SetSorted vt (setRemove vt s v).1 := by
+  induction s with
+  | nil => simp [setRemove, SetSorted]
+  | cons a s ih =>
+    have hval' : ∀ x, x ∈ s → valid vt x = true := fun x hx => hval x (List.mem_cons_of_mem _ hx)
+    have h1 := (setSorted_cons_iff vt hv a s hval).1 hs
+    simp only [setRemove]
+    cases hc : cmp vt v a <;> simp only
+    · exact hs
+    · exact h1.2
+    · have hva : ∀ x, x ∈ a :: (setRemove vt s v).1 → valid vt x = true := by
+        intro x hx
+        rcases List.mem_cons.1 hx with rfl | hx
+        · exact hval _ (by simp)
+        · exact hval' x (setRemove_mem vt s v x hx)
+      refine (setSorted_cons_iff vt hv a _ hva).2 ⟨?_, ih h1.2 hval'⟩
+      intro x hx
+      exact h1.1 x (setRemove_mem vt s v x hx)
+
+theorem setRemove_flag_iff (vt : KT) (hv : CmpLaws vt) (s : VSet) (v : Bytes)
+    (hs : SetSorted vt s) (hval : ∀ x, x ∈ s → valid vt x = true) (hvv : valid vt v = true) :
+    (setRemove vt s v).2 = true ↔ ∃ x, x ∈ s ∧ cmp vt v x = .eq := by
+  induction s with
+  | nil => simp [setRemove]
+  | cons a s ih =>
+    have hval' : ∀ x, x ∈ s → valid vt x = true := fun x hx => hval x (List.mem_cons_of_mem _ hx)
+    have h1 := (setSorted_cons_iff vt hv a s hval).1 hs
+    simp only [setRemove]
+    cases hc : cmp vt v a <;> simp only
+    · simp only [Bool.false_eq_true, false_iff]
+      rintro ⟨x, hx, hvx⟩
+      rcases List.mem_cons.1 hx with rfl | hx
+      · simp [hc] at hvx
+      · have := cl_lt_trans hv hvv (hval a (by simp)) (hval' x hx) hc (h1.1 x hx)
+        simp [this] at hvx
+    · simp only [true_iff]
+      exact ⟨a, by simp, hc⟩
+    · rw [ih h1.2 hval']
+      constructor
+      · rintro ⟨x, hx, hvx⟩; exact ⟨x, List.mem_cons_of_mem _ hx, hvx⟩
+      · rintro ⟨x, hx, hvx⟩
+        rcases List.mem_cons.1 hx with rfl | hx
+        · simp [hc] at hvx
+        · exact ⟨x, hx, hvx⟩
+
+theorem setRemove_unchanged (vt : KT) (s : VSet) (v : Bytes) (h : (setRemove vt s v).2 = false) :
+    (setRemove vt s v).1 = s := by
+  induction s with
+  | nil => simp [setRemove]
+  | cons a s ih =>
+    simp only [setRemove] at h ⊢
+    cases hc : cmp vt v a <;> simp only [hc] at h ⊢
+    · simp at h
+    · rw [ih h]
+
+theorem setRemove_not_has (vt : KT) (hv : CmpLaws vt) (s : VSet) (v : Bytes)
+    (hs : SetSorted vt s) (hval : ∀ x, x ∈ s → valid vt x = true) (hvv : valid vt v = true) :
+    ¬ ∃ x, x ∈ (setRemove vt s v).1 ∧ cmp vt v x = .eq := by
+  induction s with
+  | nil => simp [setRemove]
+  | cons a s ih =>
+    have hval' : ∀ x, x ∈ s → valid vt x = true := fun x hx => hval x (List.mem_cons_of_mem _ hx)
+    have h1 := (setSorted_cons_iff vt hv a s hval).1 hs
+    simp only [setRemove]
+    cases hc : cmp vt v a <;> simp only
+    · rintro ⟨x, hx, hvx⟩
+      rcases List.mem_cons.1 hx with rfl | hx
+      · simp [hc] at hvx
+      · have := cl_lt_trans hv hvv (hval a (by simp)) (hval' x hx) hc (h1.1 x hx)
+        simp [this] at hvx
+    · rintro ⟨x, hx, hvx⟩
+      have := cl_eq_lt hv hvv (hval a (by simp)) (hval' x hx) hc (h1.1 x hx)
+      simp [this] at hvx
+    · rintro ⟨x, hx, hvx⟩
+      rcases List.mem_cons.1 hx with rfl | hx
+      · simp [hc] at hvx
+      · exact ih h1.2 hval' ⟨x, hx, hvx⟩
+
+theorem setRemove_length (vt : KT) (s : VSet) (v : Bytes) :
+    (setRemove vt s v).1.length + (if (setRemove vt s v).2 then 1 else 0) = s.length := by
+  induction s with
+  | nil => simp [setRemove]
+  | cons a s ih =>
+    cases hc : cmp vt v a <;> simp only [setRemove, hc]
+    · simp
+    · simp
+    · simp only [List.length_cons]; omega
+
+
+/-! ### map level -/
+
+theorem foldl_len_acc (m : MMap) (a : Nat) :
+    m.foldl (fun a e => a + e.2.length) a = a + m.foldl (fun a e => a + e.2.length) 0 := by
+  induction m generalizing a with
+  | nil => simp
+  | cons e m ih => simp only [List.foldl_cons]; rw [ih (a + _), ih (0 + _)]; omega
+
+theorem len_nil : len [] = 0 := rfl
+
+theorem len_cons (e : Bytes × VSet) (m : MMap) : len (e :: m) = e.2.length + len m := by
+  simp only [len, List.foldl_cons]; rw [foldl_len_acc]; omega
+
+theorem wf_cons_cons (kt vt : KT) (a b : Bytes × VSet) (m : MMap) :
+    WF kt vt (a :: b :: m) ↔
+      cmp kt a.1 b.1 = .lt ∧ a.2 ≠ [] ∧ SetSorted vt a.2 ∧ WF kt vt (b :: m) := by
+  simp [WF]
+
+theorem wf_cons_iff (kt vt : KT) (hk : CmpLaws kt) (a : Bytes × VSet) (m : MMap)
+    (hval : ∀ e, e ∈ a :: m → valid kt e.1 = true) :
+    WF kt vt (a :: m) ↔
+      a.2 ≠ [] ∧ SetSorted vt a.2 ∧ (∀ e, e ∈ m → cmp kt a.1 e.1 = .lt) ∧ WF kt vt m := by
+  induction m generalizing a with
+  | nil => simp [WF]
+  | cons b m ih =>
+    rw [wf_cons_cons]
+    have ihb := ih b (fun x hx => hval x (List.mem_cons_of_mem _ hx))
+    constructor
+    · rintro ⟨hab, hne, hs, hw⟩
+      refine ⟨hne, hs, ?_, hw⟩
+      intro x hx
+      rcases List.mem_cons.1 hx with rfl | hx
+      · exact hab
+      · exact cl_lt_trans hk (hval a (by simp)) (hval b (by simp)) (hval x (by simp [hx])) hab
+          ((ihb.1 hw).2.2.1 x hx)
+    · rintro ⟨hne, hs, hall, hw⟩
+      exact ⟨hall b (by simp), hne, hs, hw⟩
+
+theorem keysValid_nil (kt vt : KT) : KeysValid kt vt [] := by
+  intro e he; simp at he
+
+theorem keysValid_cons (kt vt : KT) (a : Bytes × VSet) (m : MMap) :
+    KeysValid kt vt (a :: m) ↔
+      (valid kt a.1 = true ∧ ∀ v, v ∈ a.2 → valid vt v = true) ∧ KeysValid kt vt m := by
+  simp only [KeysValid, List.mem_cons]
+  constructor
+  · intro h
+    exact ⟨h a (Or.inl rfl), fun e he => h e (Or.inr he)⟩
+  · rintro ⟨h1, h2⟩ e (rfl | he)
+    · exact h1
+    · exact h2 e he
+
+theorem get_nil_of_lt (kt : KT) (m : MMap) (k : Bytes)
+    (h : ∀ e, e ∈ m → cmp kt k e.1 = .lt) : get kt m k = [] := by
+  cases m with
+  | nil => rfl
+  | cons a m =>
+    obtain ⟨k0, s⟩ := a
+    have := h (k0, s) (by simp)
+    simp only at this
+    simp [get, this]
+
+theorem insert_key_mem (kt vt : KT) (m : MMap) (k v : Bytes) (e : Bytes × VSet)
+    (h : e ∈ (insert kt vt m k v).1) : e.1 = k ∨ ∃ e', e' ∈ m ∧ e'.1 = e.1 := by
+  induction m with
+  | nil => simp [insert] at h; simp [h]
+  | cons a m ih =>
+    obtain ⟨k0, s⟩ := a
+    simp only [insert] at h
+    cases hc : cmp kt k k0 <;> simp only [hc] at h
+    · rcases List.mem_cons.1 h with rfl | h
+      · simp
+      · exact Or.inr ⟨e, h, rfl⟩
+    · rcases List.mem_cons.1 h with rfl | h
+      · exact Or.inr ⟨(k0, s), by simp, rfl⟩
+      · exact Or.inr ⟨e, List.mem_cons_of_mem _ h, rfl⟩
+    · rcases List.mem_cons.1 h with rfl | h
+      · exact Or.inr ⟨(k0, s), by simp, rfl⟩
+      · rcases ih h with h | ⟨e', he', h'⟩
+        · exact Or.inl h
+        · exact Or.inr ⟨e', List.mem_cons_of_mem _ he', h'⟩
+
+theorem insert_valid (kt vt : KT) (m : MMap) (k v : Bytes)
+    (hval : KeysValid kt vt m) (hkv : valid kt k = true) (hvv : valid vt v = true) :
+    KeysValid kt vt (insert kt vt m k v).1 := by
+  induction m with
+  | nil =>
+    simp only [insert]
+    rw [keysValid_cons]
+    exact ⟨⟨hkv, by simpa using hvv⟩, keysValid_nil kt vt⟩
+  | cons a m ih =>
+    obtain ⟨k0, s⟩ := a
+    have h1 := (keysValid_cons kt vt _ _).1 hval
+    simp only [insert]
+    cases hc : cmp kt k k0 <;> simp only
+    · rw [keysValid_cons]
+      exact ⟨⟨hkv, by simpa using hvv⟩, hval⟩
+    · rw [keysValid_cons]
+      refine ⟨⟨h1.1.1, ?_⟩, h1.2⟩
+      intro x hx
+      rcases setInsert_mem vt s v x hx with rfl | hx
+      · exact hvv
+      · exact h1.1.2 x hx
+    · rw [keysValid_cons]
+      exact ⟨h1.1, ih h1.2⟩
+
+theorem remove_key_mem (kt vt : KT) (m : MMap) (k v : Bytes) (e : Bytes × VSet)
+    (h : e ∈ (remove kt vt m k v).1) : ∃ e', e' ∈ m ∧ e'.1 = e.1 := by
+  induction m with
+  | nil => simp [remove] at h
+  | cons a m ih =>
+    obtain ⟨k0, s⟩ := a
+    simp only [remove] at h
+    cases hc : cmp kt k k0 <;> simp only [hc] at h
+    · exact ⟨e, h, rfl⟩
+    · split at h
+      · exact ⟨e, List.mem_cons_of_mem _ h, rfl⟩
+      · rcases List.mem_cons.1 h with rfl | h
+        · exact ⟨(k0, s), by simp, rfl⟩
+        · exact ⟨e, List.mem_cons_of_mem _ h, rfl⟩
+    · rcases List.mem_cons.1 h with rfl | h
+      · exact ⟨(k0, s), by simp, rfl⟩
+      · obtain ⟨e', he', h'⟩ := ih h
+        exact ⟨e', List.mem_cons_of_mem _ he', h'⟩
+
+theorem remove_valid (kt vt : KT) (m : MMap) (k v : Bytes) (hval : KeysValid kt vt m) :
+    KeysValid kt vt (remove kt vt m k v).1 := by
+  induction m with
+  | nil => simp only [remove]; exact keysValid_nil kt vt
+  | cons a m ih =>
+    obtain ⟨k0, s⟩ := a
+    have h1 := (keysValid_cons kt vt _ _).1 hval
+    simp only [remove]
+    cases hc : cmp kt k k0 <;> simp only
+    · exact hval
+    · split
+      · exact h1.2
+      · rw [keysValid_cons]
+        exact ⟨⟨h1.1.1, fun x hx => h1.1.2 x (setRemove_mem vt s v x hx)⟩, h1.2⟩
+    · rw [keysValid_cons]
+      exact ⟨h1.1, ih h1.2⟩
+
+theorem removeAll_key_mem (kt : KT) (m : MMap) (k : Bytes) (e : Bytes × VSet)
+    (h : e ∈ (removeAll kt m k).1) : e ∈ m := by
+  induction m with
+  | nil => simp [removeAll] at h
+  | cons a m ih =>
+    obtain ⟨k0, s⟩ := a
+    simp only [removeAll] at h
+    cases hc : cmp kt k k0 <;> simp only [hc] at h
+    · exact h
+    · exact List.mem_cons_of_mem _ h
+    · rcases List.mem_cons.1 h with rfl | h
+      · simp
+      · exact List.mem_cons_of_mem _ (ih h)
+
+/-! ### the laws -/
+
+
 theorem insert_wf (kt vt : KT) (hk : CmpLaws kt) (hv : CmpLaws vt) (m : MMap) (k v : Bytes)
     (h : WF kt vt m) (hval : KeysValid kt vt m) (hkv : valid kt k = true) (hvv : valid vt v = true) :
     WF kt vt (insert kt vt m k v).1 ∧ KeysValid kt vt (insert kt vt m k v).1 := by
-  sorry
+  refine ⟨?_, insert_valid kt vt m k v hval hkv hvv⟩
+  induction m with
+  | nil => simp [insert, WF, SetSorted]
+  | cons a m ih =>
+    obtain ⟨k0, s⟩ := a
+    have hv1 := (keysValid_cons kt vt _ _).1 hval
+    have hkeys : ∀ e, e ∈ (k0, s) :: m → valid kt e.1 = true := fun e he => (hval e he).1
+    have h1 := (wf_cons_iff kt vt hk _ _ hkeys).1 h
+    have hnew := insert_valid kt vt ((k0, s) :: m) k v hval hkv hvv
+    simp only [insert] at hnew ⊢
+    cases hc : cmp kt k k0 <;> simp only [hc] at hnew ⊢
+    · exact (wf_cons_cons kt vt _ _ _).2 ⟨hc, by simp, by simp [SetSorted], h⟩
+    · refine (wf_cons_iff kt vt hk _ _ (fun e he => (hnew e he).1)).2
+        ⟨setInsert_ne_nil vt s v, setInsert_sorted vt hv s v h1.2.1 hv1.1.2 hvv, h1.2.2.1, h1.2.2.2⟩
+    · refine (wf_cons_iff kt vt hk _ _ (fun e he => (hnew e he).1)).2
+        ⟨h1.1, h1.2.1, ?_, ih h1.2.2.2 hv1.2⟩
+      intro e he
+      rcases insert_key_mem kt vt m k v e he with h' | ⟨e', he', h'⟩
+      · rw [h']; exact (cl_gt_iff hk hkv hv1.1.1).1 hc
+      · rw [← h']; exact h1.2.2.1 e' he'
 
 theorem remove_wf (kt vt : KT) (hk : CmpLaws kt) (hv : CmpLaws vt) (m : MMap) (k v : Bytes)
     (h : WF kt vt m) (hval : KeysValid kt vt m) (hkv : valid kt k = true) (hvv : valid vt v = true) :
     WF kt vt (remove kt vt m k v).1 ∧ KeysValid kt vt (remove kt vt m k v).1 := by
-  sorry
+  refine ⟨?_, remove_valid kt vt m k v hval⟩
+  induction m with
+  | nil => simp [remove, WF]
+  | cons a m ih =>
+    obtain ⟨k0, s⟩ := a
+    have hv1 := (keysValid_cons kt vt _ _).1 hval
+    have hkeys : ∀ e, e ∈ (k0, s) :: m → valid kt e.1 = true := fun e he => (hval e he).1
+    have h1 := (wf_cons_iff kt vt hk _ _ hkeys).1 h
+    have hnew := remove_valid kt vt ((k0, s) :: m) k v hval
+    simp only [remove] at hnew ⊢
+    cases hc : cmp kt k k0 <;> simp only [hc] at hnew ⊢
+    · exact h
+    · split
+      · exact h1.2.2.2
+      · rename_i hne
+        rw [if_neg hne] at hnew
+        refine (wf_cons_iff kt vt hk _ _ (fun e he => (hnew e he).1)).2
+          ⟨by simpa using hne, setRemove_sorted vt hv s v h1.2.1 hv1.1.2, h1.2.2.1, h1.2.2.2⟩
+    · refine (wf_cons_iff kt vt hk _ _ (fun e he => (hnew e he).1)).2
+        ⟨h1.1, h1.2.1, ?_, ih h1.2.2.2 hv1.2⟩
+      intro e he
+      obtain ⟨e', he', h'⟩ := remove_key_mem kt vt m k v e he
+      rw [← h']; exact h1.2.2.1 e' he'
 
 /-- the returned flag says whether the pair was present; inserting a present pair changes nothing
 (no duplicate pairs) -/
@@ -28,31 +510,104 @@ theorem insert_present_iff (kt vt : KT) (hk : CmpLaws kt) (hv : CmpLaws vt) (m :
     (h : WF kt vt m) (hval : KeysValid kt vt m) (hkv : valid kt k = true) (hvv : valid vt v = true) :
     ((insert kt vt m k v).2 = true ↔ Has kt vt m k v) ∧
     ((insert kt vt m k v).2 = true → (insert kt vt m k v).1 = m) := by
-  sorry
+  induction m with
+  | nil => simp [insert, Has, get]
+  | cons a m ih =>
+    obtain ⟨k0, s⟩ := a
+    have hv1 := (keysValid_cons kt vt _ _).1 hval
+    have hkeys : ∀ e, e ∈ (k0, s) :: m → valid kt e.1 = true := fun e he => (hval e he).1
+    have h1 := (wf_cons_iff kt vt hk _ _ hkeys).1 h
+    simp only [insert, Has, get]
+    cases hc : cmp kt k k0 <;> simp only
+    · simp
+    · exact ⟨setInsert_flag_iff vt hv s v h1.2.1 hv1.1.2 hvv,
+        fun hf => by rw [setInsert_unchanged vt s v hf]⟩
+    · have := ih h1.2.2.2 hv1.2
+      exact ⟨this.1, fun hf => by rw [this.2 hf]⟩
 
 theorem remove_present_iff (kt vt : KT) (hk : CmpLaws kt) (hv : CmpLaws vt) (m : MMap) (k v : Bytes)
     (h : WF kt vt m) (hval : KeysValid kt vt m) (hkv : valid kt k = true) (hvv : valid vt v = true) :
     ((remove kt vt m k v).2 = true ↔ Has kt vt m k v) ∧
     ((remove kt vt m k v).2 = false → (remove kt vt m k v).1 = m) := by
-  sorry
+  induction m with
+  | nil => simp [remove, Has, get]
+  | cons a m ih =>
+    obtain ⟨k0, s⟩ := a
+    have hv1 := (keysValid_cons kt vt _ _).1 hval
+    have hkeys : ∀ e, e ∈ (k0, s) :: m → valid kt e.1 = true := fun e he => (hval e he).1
+    have h1 := (wf_cons_iff kt vt hk _ _ hkeys).1 h
+    simp only [remove, Has, get]
+    cases hc : cmp kt k k0 <;> simp only
+    · simp
+    · have hflag := setRemove_flag_iff vt hv s v h1.2.1 hv1.1.2 hvv
+      split
+      · rename_i he
+        refine ⟨hflag, fun hf => ?_⟩
+        have := setRemove_unchanged vt s v hf
+        rw [this] at he
+        exact absurd (by simpa using he) h1.1
+      · refine ⟨hflag, fun hf => ?_⟩
+        rw [setRemove_unchanged vt s v hf]
+    · have := ih h1.2.2.2 hv1.2
+      exact ⟨this.1, fun hf => by rw [this.2 hf]⟩
 
 /-- `len` counts pairs -/
 theorem len_insert (kt vt : KT) (m : MMap) (k v : Bytes) :
     len (insert kt vt m k v).1 = len m + (if (insert kt vt m k v).2 then 0 else 1) := by
-  sorry
+  induction m with
+  | nil => simp [insert, len]
+  | cons a m ih =>
+    obtain ⟨k0, s⟩ := a
+    cases hc : cmp kt k k0 <;> simp only [insert, hc]
+    · simp [len_cons]; omega
+    · have := setInsert_length vt s v
+      simp only [len_cons]; omega
+    · simp only [len_cons]; omega
 
 theorem len_remove (kt vt : KT) (m : MMap) (k v : Bytes) :
     len (remove kt vt m k v).1 + (if (remove kt vt m k v).2 then 1 else 0) = len m := by
-  sorry
+  induction m with
+  | nil => simp [remove, len]
+  | cons a m ih =>
+    obtain ⟨k0, s⟩ := a
+    cases hc : cmp kt k k0 <;> simp only [remove, hc]
+    · simp
+    · have := setRemove_length vt s v
+      split
+      · rename_i he
+        have : (setRemove vt s v).1.length = 0 := by
+          simpa using he
+        simp only [len_cons]; omega
+      · simp only [len_cons]; omega
+    · simp only [len_cons]; omega
 
 theorem len_removeAll (kt : KT) (m : MMap) (k : Bytes) :
     len (removeAll kt m k).1 + (removeAll kt m k).2.length = len m := by
-  sorry
+  induction m with
+  | nil => simp [removeAll, len]
+  | cons a m ih =>
+    obtain ⟨k0, s⟩ := a
+    cases hc : cmp kt k k0 <;> simp only [removeAll, hc]
+    · simp
+    · simp only [len_cons]; omega
+    · simp only [len_cons]; omega
 
 /-- values of a key iterate in value order, and a present key has at least one value -/
 theorem get_sorted (kt vt : KT) (m : MMap) (k : Bytes) (h : WF kt vt m) :
     SetSorted vt (get kt m k) := by
-  sorry
+  induction m with
+  | nil => simp [get, SetSorted]
+  | cons a m ih =>
+    obtain ⟨k0, s⟩ := a
+    have h1 : SetSorted vt s ∧ WF kt vt m := by
+      cases m with
+      | nil => exact ⟨h.2, trivial⟩
+      | cons b m => exact ⟨h.2.2.1, h.2.2.2⟩
+    simp only [get]
+    cases hc : cmp kt k k0 <;> simp only
+    · simp [SetSorted]
+    · exact h1.1
+    · exact ih h1.2
 
 /-- after an insert the pair is present; other keys are untouched -/
 theorem get_insert (kt vt : KT) (hk : CmpLaws kt) (hv : CmpLaws vt) (m : MMap) (k v k' : Bytes)
@@ -60,7 +615,47 @@ theorem get_insert (kt vt : KT) (hk : CmpLaws kt) (hv : CmpLaws vt) (m : MMap) (
     (hk' : valid kt k' = true) :
     Has kt vt (insert kt vt m k v).1 k v ∧
     (cmp kt k' k ≠ .eq → get kt (insert kt vt m k v).1 k' = get kt m k') := by
-  sorry
+  induction m with
+  | nil =>
+    refine ⟨?_, fun hne => ?_⟩
+    · simp only [insert, Has, get, hk.refl k hkv]
+      exact ⟨v, by simp, hv.refl v hvv⟩
+    · simp only [insert, get]
+      cases hc : cmp kt k' k <;> simp_all
+  | cons a m ih =>
+    obtain ⟨k0, s⟩ := a
+    have hv1 := (keysValid_cons kt vt _ _).1 hval
+    have hkeys : ∀ e, e ∈ (k0, s) :: m → valid kt e.1 = true := fun e he => (hval e he).1
+    have h1 := (wf_cons_iff kt vt hk _ _ hkeys).1 h
+    have hk0 := hv1.1.1
+    have ih' := ih h1.2.2.2 hv1.2
+    simp only [insert, Has]
+    cases hc : cmp kt k k0 <;> simp only
+    · refine ⟨?_, fun hne => ?_⟩
+      · simp only [get, hk.refl k hkv]
+        exact ⟨v, by simp, hv.refl v hvv⟩
+      · cases hc' : cmp kt k' k with
+        | eq => exact absurd hc' hne
+        | lt =>
+          have := cl_lt_trans hk hk' hkv hk0 hc' hc
+          simp [get, hc', this]
+        | gt => simp [get, hc']
+    · refine ⟨?_, fun hne => ?_⟩
+      · simp only [get, hc]
+        exact setInsert_has vt hv s v hvv
+      · cases hc' : cmp kt k' k0 with
+        | eq =>
+          have := cl_eq_trans hk hk' hk0 hkv hc' ((hk.eq_symm k k0 hkv hk0).1 hc)
+          exact absurd this hne
+        | lt => simp [get, hc']
+        | gt => simp [get, hc']
+    · refine ⟨?_, fun hne => ?_⟩
+      · simp only [get, hc]
+        exact ih'.1
+      · cases hc' : cmp kt k' k0 with
+        | eq => simp [get, hc']
+        | lt => simp [get, hc']
+        | gt => simp only [get, hc']; exact ih'.2 hne
 
 /-- after a remove the pair is absent; a key disappears exactly when its set becomes empty;
 other keys are untouched -/
@@ -70,12 +665,117 @@ theorem get_remove (kt vt : KT) (hk : CmpLaws kt) (hv : CmpLaws vt) (m : MMap) (
     ¬ Has kt vt (remove kt vt m k v).1 k v ∧
     (cmp kt k' k ≠ .eq → get kt (remove kt vt m k v).1 k' = get kt m k') ∧
     (get kt (remove kt vt m k v).1 k = (setRemove vt (get kt m k) v).1) := by
-  sorry
+  have key : (cmp kt k' k ≠ .eq → get kt (remove kt vt m k v).1 k' = get kt m k') ∧
+      (get kt (remove kt vt m k v).1 k = (setRemove vt (get kt m k) v).1) := by
+    induction m with
+    | nil => simp [remove, get, setRemove]
+    | cons a m ih =>
+      obtain ⟨k0, s⟩ := a
+      have hv1 := (keysValid_cons kt vt _ _).1 hval
+      have hkeys : ∀ e, e ∈ (k0, s) :: m → valid kt e.1 = true := fun e he => (hval e he).1
+      have h1 := (wf_cons_iff kt vt hk _ _ hkeys).1 h
+      have hk0 := hv1.1.1
+      have ih' := ih h1.2.2.2 hv1.2
+      simp only [remove]
+      cases hc : cmp kt k k0 <;> simp only
+      · refine ⟨fun _ => trivial, ?_⟩
+        simp [get, hc, setRemove]
+      · have hrest : ∀ k'', valid kt k'' = true → cmp kt k'' k0 ≠ .gt → get kt m k'' = [] := by
+          intro k'' hk'' hle
+          apply get_nil_of_lt
+          intro e he
+          exact hk.trans_lt k'' k0 e.1 hk'' hk0 (hval e (List.mem_cons_of_mem _ he)).1 hle
+            (h1.2.2.1 e he)
+        split
+        · rename_i he
+          refine ⟨fun hne => ?_, ?_⟩
+          · cases hc' : cmp kt k' k0 with
+            | eq =>
+              have := cl_eq_trans hk hk' hk0 hkv hc' ((hk.eq_symm k k0 hkv hk0).1 hc)
+              exact absurd this hne
+            | lt => simp [get, hc', hrest k' hk' (by simp [hc'])]
+            | gt => simp [get, hc']
+          · simp only [get, hc]
+            rw [hrest k hkv (by simp [hc])]
+            exact (by simpa using he : (setRemove vt s v).1 = []).symm
+        · refine ⟨fun hne => ?_, ?_⟩
+          · cases hc' : cmp kt k' k0 with
+            | eq =>
+              have := cl_eq_trans hk hk' hk0 hkv hc' ((hk.eq_symm k k0 hkv hk0).1 hc)
+              exact absurd this hne
+            | lt => simp [get, hc']
+            | gt => simp [get, hc']
+          · simp [get, hc]
+      · refine ⟨fun hne => ?_, ?_⟩
+        · cases hc' : cmp kt k' k0 with
+          | eq => simp [get, hc']
+          | lt => simp [get, hc']
+          | gt => simp only [get, hc']; exact ih'.1 hne
+        · simp only [get, hc]; exact ih'.2
+  refine ⟨?_, key⟩
+  simp only [Has]
+  rw [key.2]
+  have hs := get_sorted kt vt m k h
+  refine setRemove_not_has vt hv _ v hs ?_ hvv
+  intro x hx
+  clear key hs
+  induction m with
+  | nil => simp [get] at hx
+  | cons a m ih =>
+    obtain ⟨k0, s⟩ := a
+    have hv1 := (keysValid_cons kt vt _ _).1 hval
+    have hw : WF kt vt m := by
+      cases m with
+      | nil => trivial
+      | cons b m => exact h.2.2.2
+    simp only [get] at hx
+    cases hc : cmp kt k k0 <;> simp only [hc] at hx
+    · simp at hx
+    · exact hv1.1.2 x hx
+    · exact ih hw hv1.2 hx
 
 theorem get_removeAll (kt vt : KT) (hk : CmpLaws kt) (m : MMap) (k k' : Bytes)
     (h : WF kt vt m) (hval : KeysValid kt vt m) (hkv : valid kt k = true) (hk' : valid kt k' = true) :
     (removeAll kt m k).2 = get kt m k ∧ get kt (removeAll kt m k).1 k = [] ∧
     (cmp kt k' k ≠ .eq → get kt (removeAll kt m k).1 k' = get kt m k') ∧ WF kt vt (removeAll kt m k).1 := by
-  sorry
+  induction m with
+  | nil => simp [removeAll, get, WF]
+  | cons a m ih =>
+    obtain ⟨k0, s⟩ := a
+    have hv1 := (keysValid_cons kt vt _ _).1 hval
+    have hkeys : ∀ e, e ∈ (k0, s) :: m → valid kt e.1 = true := fun e he => (hval e he).1
+    have h1 := (wf_cons_iff kt vt hk _ _ hkeys).1 h
+    have hk0 := hv1.1.1
+    have ih' := ih h1.2.2.2 hv1.2
+    simp only [removeAll]
+    cases hc : cmp kt k k0 <;> simp only
+    · exact ⟨by simp [get, hc], by simp [get, hc], fun _ => trivial, h⟩
+    · have hrest : ∀ k'', valid kt k'' = true → cmp kt k'' k0 ≠ .gt → get kt m k'' = [] := by
+        intro k'' hk'' hle
+        apply get_nil_of_lt
+        intro e he
+        exact hk.trans_lt k'' k0 e.1 hk'' hk0 (hval e (List.mem_cons_of_mem _ he)).1 hle
+          (h1.2.2.1 e he)
+      refine ⟨by simp [get, hc], hrest k hkv (by simp [hc]), fun hne => ?_, h1.2.2.2⟩
+      cases hc' : cmp kt k' k0 with
+      | eq =>
+        have := cl_eq_trans hk hk' hk0 hkv hc' ((hk.eq_symm k k0 hkv hk0).1 hc)
+        exact absurd this hne
+      | lt => simp [get, hc', hrest k' hk' (by simp [hc'])]
+      | gt => simp [get, hc']
+    · refine ⟨by simp only [get, hc]; exact ih'.1, by simp only [get, hc]; exact ih'.2.1,
+        fun hne => ?_, ?_⟩
+      · cases hc' : cmp kt k' k0 with
+        | eq => simp [get, hc']
+        | lt => simp [get, hc']
+        | gt => simp only [get, hc']; exact ih'.2.2.1 hne
+      · have hnewv : ∀ e, e ∈ (k0, s) :: (removeAll kt m k).1 → valid kt e.1 = true := by
+          intro e he
+          rcases List.mem_cons.1 he with rfl | he
+          · exact hk0
+          · exact (hv1.2 e (removeAll_key_mem kt m k e he)).1
+        refine (wf_cons_iff kt vt hk _ _ hnewv).2 ⟨h1.1, h1.2.1, ?_, ih'.2.2.2⟩
+        intro e he
+        exact h1.2.2.1 e (removeAll_key_mem kt m k e he)
 
 end Redb.MultiSpec
